@@ -16,3 +16,5 @@ Definition run_in (c : val * list val) : J := JB (in_model (fst c) (snd c)).
 Fixpoint map2b (f : val -> val -> bool) (a b : list val) : list J :=
   match a, b with x :: a', y :: b' => JB (f x y) :: map2b f a' b' | _, _ => [] end.
 Definition run_veq (c : list val * list val) : J := JL (map2b eq_model (fst c) (snd c)).
+(* a sequence of states of two (mutable) objects: eq(x, y) and eq(y, x) on the CURRENT values of every state *)
+Definition run_eq_seq (c : list (val * val)) : J := JL (map run_eq_pair c).
